@@ -1,18 +1,17 @@
 import Geo.Props.C02
 import Geo.Props.C01b
-open Geo
-#print axioms T02_1_join_P2P2_dep
-#print axioms T02_1_meet_L2L2_dep
-#print axioms T02_1_join_P3P3_dep
-#print axioms T02_1_join_P3P3P3_dep
-#print axioms T02_1_meet_EEE_dep
-#print axioms T02_1_meet_EE_dep
-#print axioms T02_1_join_L3P3_dep
-#print axioms T02_2_join_P2P2_minors
-#print axioms T02_2_minors_zero_dependent
-#print axioms T02_3_coplanarity_scalar
-#print axioms T02_5_error_iff_zero
-#print axioms T02_5_mask_positions
-#print axioms T01_7_blinn_rank_one
-#print axioms T01_9_roundtrip_P2
-#print axioms T01_9_roundtrip_L2
+#print axioms Geo.T02_1_join_P2P2_dep
+#print axioms Geo.T02_1_meet_L2L2_dep
+#print axioms Geo.T02_1_join_P3P3_dep
+#print axioms Geo.T02_1_join_P3P3P3_dep
+#print axioms Geo.T02_1_meet_EEE_dep
+#print axioms Geo.T02_1_meet_EE_dep
+#print axioms Geo.T02_1_join_L3P3_dep
+#print axioms Geo.T02_2_join_P2P2_minors
+#print axioms Geo.T02_2_minors_zero_dependent
+#print axioms Geo.T02_3_coplanarity_scalar
+#print axioms Geo.T02_5_error_iff_zero
+#print axioms Geo.T02_5_mask_positions
+#print axioms Geo.T01_7_blinn_rank_one
+#print axioms Geo.T01_9_roundtrip_P2
+#print axioms Geo.T01_9_roundtrip_L2
